@@ -30,6 +30,7 @@ import (
 	"time"
 
 	"github.com/rqlite/rqlite/v10/cluster"
+	clstrPB "github.com/rqlite/rqlite/v10/cluster/proto"
 	command "github.com/rqlite/rqlite/v10/command/proto"
 	"github.com/rqlite/rqlite/v10/proxy"
 	"github.com/rqlite/rqlite/v10/store"
@@ -78,6 +79,17 @@ func (c *c21Conn) Read(p []byte) (int, error) {
 	return n, err
 }
 
+// c21Cluster is the other node's cluster client: the real cluster.Client, with a fresh connection pool
+// for every forwarded backup (a connection the harness has cut must not be handed to the next scenario).
+type c21Cluster struct {
+	*cluster.Client
+	d *c21Dialer
+}
+
+func (c *c21Cluster) Backup(ctx context.Context, br *command.BackupRequest, addr string, creds *clstrPB.Credentials, timeout time.Duration, w io.Writer) error {
+	return cluster.NewClient(c.d, 5*time.Second).Backup(ctx, br, addr, creds, timeout, w)
+}
+
 type c21Dialer struct {
 	limit int64 // -1 = unlimited
 	read  int64
@@ -98,7 +110,7 @@ type c21Env struct {
 	st      *store.Store
 	clAddr  string
 	dialer  *c21Dialer
-	client  *cluster.Client
+	client  *c21Cluster
 	urlA    string // leader's HTTP API
 	urlB    string // "other node": forwards to the leader
 	started int64  // transactions handed to the store
@@ -113,7 +125,7 @@ type c21Env struct {
 const c21Total = 100
 const c21Pad = 3000
 
-func c21Delta(i int64) int64 { return (i*7)%13 - 6 }
+func c21Delta(i int64) int64 { return i%7 + 1 } // never 0: the state after k transactions identifies k
 func c21Sum(k int64) int64 {
 	var s int64
 	for i := int64(1); i <= k; i++ {
@@ -163,12 +175,12 @@ func c21NewEnv(t *testing.T) *c21Env {
 	}
 	e.closers = append(e.closers, func() { e.st.Close(true) })
 
-	// schema: a and b are separated by a large table so that a dump reads them some milliseconds apart
+	// schema: a dump reads the tables in name order: a, m (large), z, zlog — a and z some milliseconds apart
 	e.exec("CREATE TABLE a(id INTEGER PRIMARY KEY, v INTEGER)", "INSERT INTO a VALUES(1, 100)")
-	e.exec("CREATE TABLE pad(id INTEGER PRIMARY KEY, s TEXT)")
+	e.exec("CREATE TABLE m(id INTEGER PRIMARY KEY, s TEXT)")
 	for i := 0; i < c21Pad; i += 500 {
 		var sb strings.Builder
-		sb.WriteString("INSERT INTO pad(id, s) VALUES")
+		sb.WriteString("INSERT INTO m(id, s) VALUES")
 		for j := i; j < i+500; j++ {
 			if j > i {
 				sb.WriteString(",")
@@ -177,8 +189,17 @@ func c21NewEnv(t *testing.T) *c21Env {
 		}
 		e.exec(sb.String())
 	}
-	e.exec("CREATE TABLE b(id INTEGER PRIMARY KEY, v INTEGER)", "INSERT INTO b VALUES(1, 0)")
-	e.exec("CREATE TABLE log(seq INTEGER PRIMARY KEY, delta INTEGER)", "CREATE INDEX log_delta ON log(delta)")
+	e.exec("CREATE TABLE z(id INTEGER PRIMARY KEY, v INTEGER)", "INSERT INTO z VALUES(1, 0)")
+	e.exec("CREATE TABLE zlog(seq INTEGER PRIMARY KEY, delta INTEGER)", "CREATE INDEX log_delta ON zlog(delta)")
+
+	// let the bootstrap configuration entry be covered by a snapshot, so that the pre-backup snapshot
+	// of the first backups is not skipped for the "wait until the configuration entry" reason
+	for i := 0; i < 100; i++ {
+		if err := e.st.Snapshot(0); err == nil {
+			break
+		}
+		time.Sleep(50 * time.Millisecond)
+	}
 
 	// inter-node service of the leader
 	cln, err := net.Listen("tcp", "127.0.0.1:0")
@@ -193,7 +214,7 @@ func c21NewEnv(t *testing.T) *c21Env {
 	e.closers = append(e.closers, func() { cs.Close() })
 
 	e.dialer = &c21Dialer{limit: -1}
-	e.client = cluster.NewClient(e.dialer, 5*time.Second)
+	e.client = &c21Cluster{Client: cluster.NewClient(e.dialer, 5*time.Second), d: e.dialer}
 
 	// leader's own HTTP API
 	plain := cluster.NewClient(&c21Dialer{limit: -1}, 5*time.Second)
@@ -243,8 +264,8 @@ func c21NewEnv(t *testing.T) *c21Env {
 			atomic.StoreInt64(&e.started, i)
 			res, _, err := e.st.Execute(context.Background(), c21Stmts(
 				fmt.Sprintf("UPDATE a SET v = v - (%d) WHERE id = 1", d),
-				fmt.Sprintf("UPDATE b SET v = v + (%d) WHERE id = 1", d),
-				fmt.Sprintf("INSERT INTO log(seq, delta) VALUES(%d, %d)", i, d)))
+				fmt.Sprintf("UPDATE z SET v = v + (%d) WHERE id = 1", d),
+				fmt.Sprintf("INSERT INTO zlog(seq, delta) VALUES(%d, %d)", i, d)))
 			if err != nil || len(res) != 3 {
 				// a failed write would make the committed prefix unknown: stop writing
 				t.Errorf("writer: %v %v", err, res)
@@ -315,9 +336,16 @@ func c21Load(dir string, in c21Input, body []byte) c21State {
 			db.Close()
 			return c21State{Why: "dump does not end with COMMIT"}
 		}
-		if _, err := db.Exec(string(body)); err != nil {
-			db.Close()
-			return c21State{Why: "dump does not load: " + err.Error()}
+		// statement by statement (the schema of the harness has no ";\n" inside a statement);
+		// one Exec of the whole text is quadratic in go-sqlite3
+		for _, stmt := range strings.Split(string(body), ";\n") {
+			if strings.TrimSpace(stmt) == "" {
+				continue
+			}
+			if _, err := db.Exec(stmt); err != nil {
+				db.Close()
+				return c21State{Why: "dump does not load: " + err.Error()}
+			}
 		}
 	} else {
 		if err := os.WriteFile(path, body, 0o600); err != nil {
@@ -345,9 +373,9 @@ func c21Load(dir string, in c21Input, body []byte) c21State {
 		return true
 	}
 	var idx int64
-	if !q("SELECT v FROM a WHERE id=1", &st.A) || !q("SELECT v FROM b WHERE id=1", &st.B) ||
-		!q("SELECT count(*), coalesce(max(seq),0), coalesce(sum(delta),0) FROM log", &st.LogN, &st.LogMax, &st.LogSum) ||
-		!q("SELECT count(*) FROM pad", &st.Pad) || !q("SELECT count(*) FROM sqlite_master WHERE type='index' AND name='log_delta'", &idx) {
+	if !q("SELECT v FROM a WHERE id=1", &st.A) || !q("SELECT v FROM z WHERE id=1", &st.B) ||
+		!q("SELECT count(*), coalesce(max(seq),0), coalesce(sum(delta),0) FROM zlog", &st.LogN, &st.LogMax, &st.LogSum) ||
+		!q("SELECT count(*) FROM m", &st.Pad) || !q("SELECT count(*) FROM sqlite_master WHERE type='index' AND name='log_delta'", &idx) {
 		return c21State{Why: st.Why}
 	}
 	st.Index = idx == 1
@@ -405,8 +433,11 @@ func (in c21Input) coqFlags() string {
 		map[string]string{"binary": "FBinary", "sql": "FSql", "delete": "FDelete"}[in.Format], coqBool(in.Vacuum), coqBool(in.Compress), coqBool(in.Remote))
 }
 
+// one connection per request: the transport must not silently retry a request whose response was aborted
+var c21HTTP = &nethttp.Client{Transport: &nethttp.Transport{DisableKeepAlives: true}}
+
 func c21Get(url string) (int, []byte, error) {
-	resp, err := nethttp.Get(url)
+	resp, err := c21HTTP.Get(url)
 	if err != nil {
 		return 0, nil, err
 	}
@@ -426,7 +457,14 @@ func c21RunLive(e *c21Env, w *vWriter, in c21Input) {
 	if in.Remote {
 		url = e.urlB
 	}
-	status, body, err := c21Get(url + in.query())
+	status, body, err := c21Get(url + in.query() + "&timeout=2s")
+	for try := 0; try < 8 && err == nil && status != 200 && in.valid() && strings.Contains(string(body), "CAS conflict"); try++ {
+		// the snapshot gate is still held by the previous backup or by a Raft snapshot: the request
+		// was refused (an error, not a wrong backup); ask again
+		time.Sleep(50 * time.Millisecond)
+		lo = atomic.LoadInt64(&e.acked)
+		status, body, err = c21Get(url + in.query() + "&timeout=2s")
+	}
 	hi := atomic.LoadInt64(&e.started)
 	vc := VCase{Input: in, Key: fmt.Sprintf("live|%s|%v|%v|%v|%d", in.Format, in.Vacuum, in.Compress, in.Remote, in.Rep),
 		Tags: []string{"kind=live", "fmt=" + in.Format, fmt.Sprintf("vacuum=%v", in.Vacuum), fmt.Sprintf("compress=%v", in.Compress), fmt.Sprintf("remote=%v", in.Remote)}}
@@ -497,6 +535,13 @@ func c21RunCut(e *c21Env, w *vWriter, in c21Input) {
 	var full bytes.Buffer
 	ctx, cancel := context.WithTimeout(context.Background(), 20*time.Second)
 	errFull := e.client.Backup(ctx, in.request(), e.clAddr, nil, 2*time.Second, &full)
+	for try := 0; try < 4 && errFull != nil && !strings.Contains(errFull.Error(), "timeout") && in.valid(); try++ {
+		// e.g. the snapshot gate was still held by the previous backup: the serving node gave up (an error); ask again
+		time.Sleep(100 * time.Millisecond)
+		full.Reset()
+		e.dialer.limit, e.dialer.read = -1, 0
+		errFull = e.client.Backup(ctx, in.request(), e.clAddr, nil, 2*time.Second, &full)
+	}
 	cancel()
 	total := atomic.LoadInt64(&e.dialer.read)
 	fullOK := errFull == nil
@@ -566,6 +611,10 @@ func TestVerif_C21(t *testing.T) {
 	e := c21NewEnv(t)
 	defer e.close()
 	run := func(in c21Input) {
+		if os.Getenv("C21_TRACE") != "" {
+			t0 := time.Now()
+			defer func() { fmt.Printf("C21 %+v %v\n", in, time.Since(t0)) }()
+		}
 		if in.Kind == "cut" {
 			c21RunCut(e, w, in)
 		} else {
